@@ -69,7 +69,7 @@ def load_findings():
 
 
 def open_findings(ctx, prop=None):
-    return [f for f in ctx.findings if f.get("status") == "open" and (prop is None or f["property"] == prop)]
+    return [f for f in ctx.findings if f.get("status") == "open" and (prop is None or prop in f.get("properties", [f.get("property")]))]
 
 
 # ---------------------------------------------------------------- TLC
